@@ -118,7 +118,6 @@ func (manager *TaskManager) Create(pip pipservices.Pip) (result pipservices.Task
 		return nil, err
 	}
 	// add oLogger to oBroadcast
-	manager.tasks[taskname] = task
 	if err = manager.validWaitList([]string{taskname}, task, 100); err != nil {
 		childScope.Close()
 		return nil, err
@@ -128,6 +127,8 @@ func (manager *TaskManager) Create(pip pipservices.Pip) (result pipservices.Task
 		return nil, err
 	}
 	manager.wg.Add(1)
+	// register the task only when the submission is accepted (tasksMU is still locked)
+	manager.tasks[taskname] = task
 	return task, nil
 }
 
